@@ -1,0 +1,62 @@
+//go:build verif
+
+package basic
+
+import (
+	"sort"
+
+	"github.com/named-data/ndnd/std/ndn"
+)
+
+// Verification hooks (build tag `verif` only): read-only dumps of the application PIT and FIB tries.
+// No behaviour of the engine is changed; with the tag off this file is not compiled.
+
+// VerifProbe is the Result value passed to Express callbacks by VerifPitDump so that a test harness can
+// identify which pending Interest sits in which trie node. It is not a value the engine ever produces.
+const VerifProbe ndn.InterestResult = -77
+
+// VerifPitDump walks the nodes of the PIT trie that are reachable from the root, in sorted key order.
+// For every node it calls visit(path, entries) and then calls the callback of every pending entry of
+// that node, in list order, with Result == VerifProbe.
+func (e *Engine) VerifPitDump(visit func(path []string, entries int)) {
+	e.pitLock.Lock()
+	defer e.pitLock.Unlock()
+	var walk func(n *NameTrie[pitEntry], path []string)
+	walk = func(n *NameTrie[pitEntry], path []string) {
+		visit(path, len(n.val))
+		for _, ent := range n.val {
+			if ent.callback != nil {
+				ent.callback(ndn.ExpressCallbackArgs{Result: VerifProbe})
+			}
+		}
+		keys := make([]string, 0, len(n.chd))
+		for k := range n.chd {
+			keys = append(keys, k)
+		}
+		sort.Strings(keys)
+		for _, k := range keys {
+			walk(n.chd[k], append(append([]string{}, path...), k))
+		}
+	}
+	walk(e.pit, nil)
+}
+
+// VerifFibDump walks the reachable nodes of the FIB trie in sorted key order and reports for each
+// node its path and its handler (nil if none).
+func (e *Engine) VerifFibDump(visit func(path []string, handler ndn.InterestHandler)) {
+	e.fibLock.Lock()
+	defer e.fibLock.Unlock()
+	var walk func(n *NameTrie[fibEntry], path []string)
+	walk = func(n *NameTrie[fibEntry], path []string) {
+		visit(path, n.val)
+		keys := make([]string, 0, len(n.chd))
+		for k := range n.chd {
+			keys = append(keys, k)
+		}
+		sort.Strings(keys)
+		for _, k := range keys {
+			walk(n.chd[k], append(append([]string{}, path...), k))
+		}
+	}
+	walk(e.fib, nil)
+}
